@@ -217,6 +217,9 @@ impl State {
                 }
                 let got = n.is_compatible_upgrade_of(&o);
                 let mut r = out(if got { "true" } else { "false" });
+                if !got && permitted_change(&n, &o) {
+                    r.failures.push(("compat-refuses-permitted".into(), "is_compatible_upgrade_of refuses a permitted type change".into(), "true".into(), "false".into()));
+                }
                 if got && !permitted_change(&n, &o) {
                     r.failures.push(("compat-accepts-forbidden".into(), "is_compatible_upgrade_of accepts a type change that is not permitted".into(), "false".into(), "true".into()));
                 }
@@ -303,7 +306,10 @@ impl State {
                 match new.upgrade_with(&cur) {
                     Err(_) => {
                         let mut r = out("err");
-                        r.hits.push(format!("upgrade:err{}", if permitted { "-but-permitted" } else { "" }));
+                        r.hits.push("upgrade:err".into());
+                        if permitted {
+                            r.failures.push(("upgrade-refuses-permitted".into(), "upgrade_with refused a permitted upgrade".into(), "ok".into(), "err".into()));
+                        }
                         Some(r)
                     }
                     Ok(()) => {
